@@ -78,6 +78,7 @@ var (
 //verif:model (*github.com/cockroachdb/pebble.Iterator).Value = vmIterValue
 //verif:model (*github.com/cockroachdb/pebble.Iterator).Close = vmIterClose
 //verif:stub noop (*github.com/cockroachdb/pebble.DB).Compact (*github.com/cockroachdb/pebble.DB).Close
+//verif:stub noop (*github.com/holiman/uint256.Int).Float64
 //verif:stub havoc github.com/ethereum/go-ethereum/metrics.Enabled github.com/ethereum/go-ethereum/metrics.GetOrRegisterGaugeFloat64 github.com/ethereum/go-ethereum/metrics.GetOrRegisterGauge github.com/ethereum/go-ethereum/metrics.GetOrRegisterCounter github.com/ethereum/go-ethereum/metrics.GetOrRegisterMeter github.com/ethereum/go-ethereum/metrics.NewRegisteredGaugeFloat64 github.com/ethereum/go-ethereum/metrics.NewRegisteredGauge github.com/ethereum/go-ethereum/metrics.NewRegisteredCounter github.com/ethereum/go-ethereum/metrics.NewRegisteredMeter
 //verif:go drop
 func vgKV() {}
@@ -330,8 +331,12 @@ func vhPebblePruneStep(radiusClauses bool) {
 	n := 1 + vsChoose("items", vsParam("N"))
 	s := vhMakeState(n, vhCap)
 	node := vsArr32("node")
-	cs := vhStorage(s, node, vhCap, uint256.NewInt(0).SetAllOne())
 	vsAssume(s.record >= s.kv.held() && s.record <= vhCap)
+	// the store is opened by the real NewStorage on that state (within capacity: no prune on open;
+	// above 95% the radius is re-derived from the farthest item, otherwise it is the maximum)
+	st, oerr := NewStorage(storage.PortalStorageConfig{StorageCapacityMB: 1, NodeId: node}, s.db)
+	vsAssume(oerr == nil)
+	cs := st.(*ContentStorage)
 	id := vsBytesN("id", 32)
 	vsAssume(!bytes.Equal(id, node[:]))
 	ln := uint64(vsU32("len") & 0x1fffff) // lengths are below 2^21 (assumed below); narrow terms help the solver
@@ -367,8 +372,9 @@ func vhPebblePruneStep(radiusClauses bool) {
 		if bytes.Equal(e.key, vhZeroKey) {
 			continue
 		}
-		if symmetric {
-			// the radius was read off a key that is the same in both byte orders: outside KF-C06-2
+		if symmetric && vhByteSymmetric(e.key) {
+			// the radius was read off a key that is the same in both byte orders, and so is this
+			// item's distance (so its admission compared the right numbers): outside KF-C06-2
 			vsAssert(bytes.Compare(e.key, rb) <= 0, "byte-symmetric-radius/retained-item-within-new-radius")
 			vsCover("byte-symmetric-radius")
 		} else {
